@@ -217,6 +217,16 @@ def run(A, R: Report, thorough: bool):
             R.check(member and not none_test, 'R16.5', 'InMemoryCache.get_or_compute', key_of('presence', member, none_test), 'presence = key membership',
                     'presence of an entry is decided by its value (None = missing): a method whose result is None is executed again on every call', where=where(fg, c))
 
+    # ---- R16.6 a stored falsy result is an entry: presence is decided by the key, not by the value
+    R.rule('R16.6', 'InMemoryCache.get returns the stored entry whenever the key is present (no `stored or NO_VALUE`)', floor=1)
+    fget = imc.methods.get('get')
+    R.require(fget is not None, 'anchor: InMemoryCache.get missing')
+    tg = A.sym.func_term(fget, ('inst', imc))
+    ors = [x for x in dag_nodes(tg) if x[0] == 'or']
+    R.check(not ors, 'R16.6', 'InMemoryCache.get', key_of('falsy-missing', pretty(tg)[:100]), 'lookup with NO_VALUE as default / membership test',
+            f'`{pretty(tg)[:120]}`: a stored entry whose value is falsy (0, [], "", False, None) is reported as missing, so only_cache look-ups and cached calls of such results miss',
+            witness=[pretty(tg)[:200]], where=where(fget))
+
 
 def _guard_tests(cfg, nid):
     """Test expressions on the control-dependence chain of a node (either polarity), including disjunctive guards."""
